@@ -32,16 +32,31 @@ def run_case(case):
               'nonce_on_get': case['nonce_on_get']}
     if case.get('spike'):
         ca_cfg['delay_spike'] = case['spike']
+    eab_keys = {'kid-%s' % a: bytes((case['i'] * 5 + k * 11 + j) % 256 for j in range(32)).hex() for k, a in enumerate(accs)}
+    if case['variant'] == 'eab-restart':
+        ca_cfg['eab_keys'] = eab_keys
     plan = {'default': ca_cfg}
     hp = {'hold_ms': case['hook_hold']}
+    if case['variant'] == 'save-fails':
+        # the very first write of an account file fails (its file hook exits 3): the registration the CA has just accepted must not be forgotten
+        hp['exit'] = {'h_accfail': [3]}
 
     def mk_cfg(contacts, key_type):
         def cfg(d, ca):
             with open(d + '/hookplan.json', 'w') as f:
                 json.dump(hp, f)
             # every account has its own contact addresses: a newAccount request names the configured account it is for
-            c = S.std_config(d, ca, certs, accounts=[{'name': a, 'contacts': [x.replace('@', '+%s@' % a) for x in contacts], 'key_type': key_type} for a in accs], ca_names=cas,
-                             hook_plan=d + '/hookplan.json')
+            accl = [{'name': a, 'contacts': [x.replace('@', '+%s@' % a) for x in contacts], 'key_type': key_type} for a in accs]
+            extra = []
+            if case['variant'] == 'eab-restart':
+                import base64
+                for a in accl:
+                    a['external_account'] = {'identifier': 'kid-%s' % a['name'], 'key': base64.urlsafe_b64encode(bytes.fromhex(eab_keys['kid-%s' % a['name']])).decode().rstrip('=')}
+            if case['variant'] == 'save-fails':
+                extra = [C.rec_hook('h_accfail', ['file-pre-create'], d + '/hooks.log', plan=d + '/hookplan.json')]
+                for a in accl:
+                    a['hooks'] = ['h_all', 'h_accfail']
+            c = S.std_config(d, ca, certs, accounts=accl, ca_names=cas, hook_plan=d + '/hookplan.json', extra_hooks=extra)
             return c
         return cfg
 
@@ -75,6 +90,10 @@ def run_case(case):
         phases.append({'cfg': mk_cfg(['a@example.org'], 'ecdsa_p256'), 'before': rm_certs, 'stop': all_done(1), 'timeout': 120, 'workers': case['workers'],
                        'plan': {'default': dict(ca_cfg, lifetimes_s=[LONG]),
                                 'faults': [{'kind': 'newOrder', 'action': 'forget_account', 'known_account': True, 'max_fires': case.get('forgets', 2), 'id': 'forget-at-order'}]}})
+    elif case['variant'] == 'eab-restart':
+        # accounts bound to an external account: a plain restart with everything due again registers nothing
+        phases.append({'cfg': mk_cfg(['a@example.org'], 'ecdsa_p256'), 'before': rm_certs, 'stop': all_done(1), 'timeout': 120, 'workers': case['workers'],
+                       'plan': {'default': dict(ca_cfg, lifetimes_s=[LONG])}})
     elif case['variant'] == 'contacts':
         phases.append({'cfg': mk_cfg(['b@example.org', 'c@example.org'], 'ecdsa_p256'), 'before': rm_certs, 'stop': all_done(1), 'timeout': 120, 'workers': case['workers'],
                        'plan': {'default': dict(ca_cfg, lifetimes_s=[LONG])}})
@@ -214,7 +233,8 @@ def gen(tier, r):
         r.shuffle(ca_of)
         cases.append({'i': i, 'n': n, 'n_accs': n_accs, 'n_cas': n_cas, 'acc_of': acc_of, 'ca_of': ca_of,
                       'workers': [1, 2, 4, 16][i % 4], 'max_delay': r.choice([0, 10, 30, 50]), 'hook_hold': r.choice([0, 2, 10, 25]),
-                      'variant': ['first', 'forget', 'contacts', 'key', 'forget-twice', 'key', 'forget-twice', 'contacts'][i % 8], 'rounds': 2, 'nonce_on_get': bool(i % 3),
+                      'variant': ['first', 'forget', 'contacts', 'key', 'forget-twice', 'key', 'forget-twice', 'contacts', 'save-fails', 'forget', 'eab-restart', 'key',
+                                  'forget-twice', 'save-fails', 'forget-twice', 'eab-restart'][i % 16], 'rounds': 2, 'nonce_on_get': bool(i % 3),
                       'forgets': r.randint(2, 4)})
         if cases[-1]['variant'] == 'forget-twice' and i % 16 == 4:
             # several certificates on one account and one endpoint
@@ -268,7 +288,7 @@ def run(tier):
     chk.notes['sharing_patterns'] = len(patterns)
     chk.rule = ('2-8 certificates over 1-3 accounts and 1-3 endpoints (random surjective sharing maps), two rounds of renewals all due at once, '
                 'per-response delays 0-50 ms, hook delays, TOKIO_WORKER_THREADS in {1,2,4,16}; variants: first registration only, CA forgets every '
-                'account, accounts forgotten again while orders arrive, contacts changed, key type changed; distinct = distinct per-CA sequences of (certificate, request kind) observed')
+                'account, accounts forgotten again while orders arrive, contacts changed, key type changed, first account save failing, externally bound accounts across a restart; distinct = distinct per-CA sequences of (certificate, request kind) observed')
     chk.assumptions = ['acmed polls all renewals on one thread: interleavings arise at await points and are moved by the injected delays',
                        'deadlock = renewals not ended within 120-150 s while a round normally takes a few seconds']
     code = chk.finish()
